@@ -39,6 +39,8 @@ pub fn alphabet(name: &str) -> Vec<f64> {
         "qties" => vec![0., 1., 2., 3.],
         "qdist" => vec![-4., 0., 1., 2.5, 3., 7.],
         "tri" => vec![-1., 0.1, 3.],
+        "q07" => vec![-1., 0., 0.5, 2., 7.],
+        "const1" => vec![2.5],
         "weights" => vec![0., 1e-6, 0.5, 1., 3., 1e6],
         _ => panic!("unknown alphabet {name}"),
     }
